@@ -148,9 +148,82 @@ ConcatLaw ==
          IF d # "" THEN d ELSE "ok"
 
 -----------------------------------------------------------------------------
+(* C17 - equivalent encodings.  Both parses carry `raw` (the source as code points), `ctl` (number of
+   CR / NUL code points found in any token content, recursively) and `html`. *)
+RECURSIVE RecodeEOL(_, _)
+RecodeEOL(raw, pat) ==      \* pat: per line feed 1 = CR LF, 2 = CR, 3 = LF (cyclic)
+    IF raw = <<>> THEN <<>>
+    ELSE IF raw[1] = 10 THEN
+         (CASE pat[1] = 1 -> <<13, 10>> [] pat[1] = 2 -> <<13>> [] OTHER -> <<10>>)
+         \o RecodeEOL(Tail(raw), Tail(pat) \o <<pat[1]>>)
+    ELSE <<raw[1]>> \o RecodeEOL(Tail(raw), pat)
+
+RECURSIVE NormEOL(_)
+NormEOL(raw) ==             \* CR LF -> LF, lone CR -> LF
+    IF raw = <<>> THEN <<>>
+    ELSE IF raw[1] = 13 THEN
+         <<10>> \o NormEOL(IF Len(raw) >= 2 /\ raw[2] = 10 THEN SubSeq(raw, 3, Len(raw)) ELSE Tail(raw))
+    ELSE <<raw[1]>> \o NormEOL(Tail(raw))
+
+NulToFFFD(raw) == [k \in DOMAIN raw |-> IF raw[k] = 0 THEN 65533 ELSE raw[k]]
+
+(* column-exact expansion of tabs, columns counted from the start of the physical line;
+   leadOnly: only the tabs in a line's leading white space *)
+RECURSIVE Expand(_, _, _, _)
+Expand(raw, col, lead, leadOnly) ==
+    IF raw = <<>> THEN <<>>
+    ELSE LET c == raw[1] IN
+         IF c = 10 THEN <<10>> \o Expand(Tail(raw), 0, TRUE, leadOnly)
+         ELSE IF c = 9 /\ (lead \/ ~leadOnly) THEN
+              Spaces(4 - (col % 4)) \o Expand(Tail(raw), col + 4 - (col % 4), lead, leadOnly)
+         ELSE <<c>> \o Expand(Tail(raw), col + 1, lead /\ c = 32, leadOnly)
+
+FullDiff(o, p) ==          \* identical token streams, children included
+    IF Len(o) # Len(p) THEN "token_count"
+    ELSE LET bad == {i \in DOMAIN o : o[i] # p[i]} IN
+         IF bad = {} THEN "" ELSE TokDiff(o[CHOOSE i \in bad : \A j \in bad : i <= j],
+                                          p[CHOOSE i \in bad : \A j \in bad : i <= j], FALSE)
+
+(* tab law: same blocks, nesting, maps and text; leading white space of content lines and white space
+   inside code spans (kidsw = children with white-space runs of code spans collapsed) not compared *)
+TabDiff(o, p) ==
+    IF Len(o) # Len(p) THEN "token_count"
+    ELSE LET bad == {i \in DOMAIN o : TokDiff([o[i] EXCEPT !.kids = o[i].kidsw, !.c = ""],
+                                              [p[i] EXCEPT !.kids = p[i].kidsw, !.c = ""], TRUE) # ""} IN
+         IF bad = {} THEN ""
+         ELSE LET i == CHOOSE i \in bad : \A j \in bad : i <= j IN
+              TokDiff([o[i] EXCEPT !.kids = o[i].kidsw, !.c = ""], [p[i] EXCEPT !.kids = p[i].kidsw, !.c = ""], TRUE)
+
+EncodingLaw ==
+    LET B == Tr.base D == Tr.der IN
+    IF Tr.op = "eol" THEN
+        (IF \E k \in DOMAIN B.raw : B.raw[k] = 13 THEN "skip:base_has_CR"
+         ELSE IF D.raw # RecodeEOL(B.raw, Tr.a.pat) THEN "harness:derived_document"
+         ELSE IF NormEOL(D.raw) # B.raw THEN "skip:mixed_encoding_merges_CR_LF"
+         ELSE IF D.ctl # 0 \/ B.ctl # 0 THEN "control_character_in_content"
+         ELSE IF FullDiff(D.toks, B.toks) # "" THEN FullDiff(D.toks, B.toks)
+         ELSE IF D.html # B.html THEN "html" ELSE "ok")
+    ELSE IF Tr.op = "nul" THEN
+        (IF D.raw # NulToFFFD(B.raw) THEN "harness:derived_document"
+         ELSE IF ~\E k \in DOMAIN B.raw : B.raw[k] = 0 THEN "skip:no_NUL"
+         ELSE IF D.ctl # 0 \/ B.ctl # 0 THEN "control_character_in_content"
+         ELSE IF FullDiff(B.toks, D.toks) # "" THEN FullDiff(B.toks, D.toks)
+         ELSE IF D.html # B.html THEN "html" ELSE "ok")
+    ELSE \* tabs_lead / tabs_all
+        (IF D.raw # Expand(B.raw, 0, TRUE, Tr.op = "tabs_lead") THEN "harness:derived_document"
+         ELSE IF ~\E k \in DOMAIN B.raw : B.raw[k] = 9 THEN "skip:no_tab"
+         ELSE IF D.raw = B.raw THEN "skip:no_structural_tab"
+         ELSE IF \E k \in DOMAIN B.raw : B.raw[k] \in {13, 0} THEN "skip:control_characters"
+         \* a tab that the parse places INSIDE a content line (after its leading blanks) is content,
+         \* not structural white space: the law does not speak about it
+         ELSE IF Tr.op = "tabs_all" /\ B.tabc > 0 THEN "skip:tab_inside_content"
+         ELSE IF TabDiff(B.toks, D.toks) # "" THEN TabDiff(B.toks, D.toks) ELSE "ok")
+
+-----------------------------------------------------------------------------
 Verdict == CASE Tr.op = "quote" -> QuoteLaw
              [] Tr.op = "list" -> ListLaw
              [] Tr.op = "concat" -> ConcatLaw
+             [] Tr.op \in {"eol", "nul", "tabs_lead", "tabs_all"} -> EncodingLaw
              [] OTHER -> "harness:unknown_law"
 
 Consume == /\ l' = l + 1 /\ verdict' = Verdict /\ UNCHANGED <<tid, done>>
